@@ -51,7 +51,7 @@ impl_trivial!(ShareOp, MutRc, 'a);
 impl_trivial!(ShareOpThreads, MutArc);
 
 macro_rules! impl_observable_methods {
-  ($subject: ty) => {
+  ($subject: ty, $release_while_connecting: literal) => {
     type Unsub = RefCountSubscription<
       $subject,
       <$subject as Observable<Item, Err, O>>::Unsub,
@@ -66,11 +66,24 @@ macro_rules! impl_observable_methods {
           let subscription = subject.clone().actual_subscribe(observer);
           let connected = InnerShareOp::Connected(subject.clone());
           let connectable = std::mem::replace(&mut *inner, connected);
+          // A synchronous source emits while it is being connected, and a
+          // subscriber may subscribe this share again from its callback (so
+          // does `concat_all` when the next inner observable is this share):
+          // the local form must not stay borrowed across the call. The
+          // thread-safe form keeps its lock, so that a subscription made
+          // from another thread only returns once the source is connected.
+          let guard = if $release_while_connecting {
+            drop(inner);
+            None
+          } else {
+            Some(inner)
+          };
 
           match connectable {
             InnerShareOp::Connectable(connectable) => connectable.connect(),
             InnerShareOp::Connected { .. } => unreachable!(),
           };
+          drop(guard);
 
           RefCountSubscription { subject, subscription }
         }
@@ -90,7 +103,7 @@ where
   O: Observer<Item, Err> + 'a,
   S: Observable<Item, Err, Subject<'a, Item, Err>>,
 {
-  impl_observable_methods!(Subject<'a, Item, Err>);
+  impl_observable_methods!(Subject<'a, Item, Err>, true);
 }
 
 impl<'a, S, Item, Err> ObservableExt<Item, Err> for ShareOp<'a, Item, Err, S> where
@@ -105,7 +118,7 @@ where
   O: Observer<Item, Err> + Send + 'static,
   S: Observable<Item, Err, SubjectThreads<Item, Err>>,
 {
-  impl_observable_methods!(SubjectThreads< Item, Err>);
+  impl_observable_methods!(SubjectThreads< Item, Err>, false);
 }
 
 impl<S, Item, Err> ObservableExt<Item, Err> for ShareOpThreads<Item, Err, S> where
